@@ -10,7 +10,7 @@ from .. import scenario as sc, clauses as cl
 
 PROP = "C18"
 LEVEL = "exploration"
-RULE = ("Hypothesis scenarios as for C10 with diagnostics always on: rough objective families (HASHED, SCRIPT) next to smooth "
+RULE = ("A sixteenth of the cases: long growing phases (n = 6..12, 1-3 initial directions, hinged residuals, every growing variant). Otherwise: Hypothesis scenarios as for C10 with diagnostics always on: rough objective families (HASHED, SCRIPT) next to smooth "
         "ones so that unsuccessful steps, geometry steps, rho reductions and restarts actually occur; noise/averaging, "
         "regression, growing (with and without reset_delta/reset_rho), soft/hard restarts with rhoend_scale <= 1, increase_npt, "
         "radius parameters, regulariser. Time-series invariants are evaluated over every row of soln.diagnostic_info; the "
